@@ -158,47 +158,54 @@ def check_model(spec, tier, seed, res):
   q2 = np.concatenate([o[0] for o in outs])
   d2 = np.concatenate([o[1] for o in outs])
   known = set()
-  for i in range(len(Q)):
-    res['evaluations'] += 1
-    if nt and Q[i].any():
-      res['nontrivial'] += 1
-    for c in range(nq):
-      link, kind = qinfo[c]
-      if kind == 'Fq':
-        continue
-      e = abs(q2[i, c] - Q[i, c])
-      if e > 1e-7:
-        if not supported[link]:
-          known.add('C08:position:hinge-before-slide-in-stack')
-        else:
-          report('C08:position', 'joint position %d (link %d, %s) does not '
-                 'round-trip: %.9g -> %.9g (kinds=%s)' % (
-                     c, link, kind, Q[i, c], q2[i, c],
-                     [l['kind'] for l in spec['links']]), Q[i], D[i])
-          return
-    off = 0
-    for li, l in enumerate(spec['links']):
-      if l['kind'] == 'F':
-        a, b = Q[i, off + 3:off + 7], q2[i, off + 3:off + 7]
-        if min(np.abs(a - b).max(), np.abs(a + b).max()) > 1e-7:
-          report('C08:position', 'root quaternion does not round-trip: %s -> '
-                 '%s' % (a.tolist(), b.tolist()), Q[i], D[i])
-          return
-        off += 7
-      else:
-        off += len(l['kind'])
-    for c in range(nv):
-      link, claimed = dinfo[c]
-      e = abs(d2[i, c] - D[i, c])
-      if e > 1e-9:
-        if claimed and all(dinfo[k][1] for k in range(nv)
-                           if _is_ancestor(spec, dinfo[k][0], link)):
-          report('C08:velocity', 'joint velocity %d (link %d) does not '
-                 'round-trip: %.9g -> %.9g (kinds=%s)' % (
-                     c, link, D[i, c], d2[i, c],
-                     [l['kind'] for l in spec['links']]), Q[i], D[i])
-          return
-        known.add('C08:velocity:prismatic-or-stacked-joint')
+  res['evaluations'] += len(Q)
+  if nt:
+    res['nontrivial'] += int((np.abs(Q).sum(1) > 0).sum())
+  col_link = np.array([qi[0] for qi in qinfo])
+  col_quat = np.array([qi[1] == 'Fq' for qi in qinfo])
+  col_sup = np.array([supported[l] for l in col_link])
+  eq = np.abs(q2 - Q)
+  eq[:, col_quat] = 0.0
+  if (eq[:, ~col_sup] > 1e-7).any():
+    known.add('C08:position:hinge-before-slide-in-stack')
+  bad = eq[:, col_sup] > 1e-7
+  if bad.any():
+    i = int(np.argwhere(bad.any(1))[0][0])
+    c = int(np.argwhere(col_sup)[np.argwhere(bad[i])[0][0]][0])
+    report('C08:position', 'joint position %d (link %d, %s) does not '
+           'round-trip: %.9g -> %.9g (kinds=%s)' % (
+               c, qinfo[c][0], qinfo[c][1], Q[i, c], q2[i, c],
+               [l['kind'] for l in spec['links']]), Q[i], D[i])
+    return
+  off = 0
+  for li, l in enumerate(spec['links']):
+    if l['kind'] == 'F':
+      a_, b_ = Q[:, off + 3:off + 7], q2[:, off + 3:off + 7]
+      e = np.minimum(np.abs(a_ - b_).max(1), np.abs(a_ + b_).max(1))
+      if (e > 1e-7).any():
+        i = int(np.argmax(e))
+        report('C08:position', 'root quaternion does not round-trip: %s -> '
+               '%s' % (a_[i].tolist(), b_[i].tolist()), Q[i], D[i])
+        return
+      off += 7
+    else:
+      off += len(l['kind'])
+  claimed_col = np.array([
+      dinfo[c][1] and all(dinfo[k][1] for k in range(nv)
+                          if _is_ancestor(spec, dinfo[k][0], dinfo[c][0]))
+      for c in range(nv)])
+  ed = np.abs(d2 - D)
+  if (ed[:, ~claimed_col] > 1e-9).any():
+    known.add('C08:velocity:prismatic-or-stacked-joint')
+  bad = ed[:, claimed_col] > 1e-9
+  if bad.any():
+    i = int(np.argwhere(bad.any(1))[0][0])
+    c = int(np.argwhere(claimed_col)[np.argwhere(bad[i])[0][0]][0])
+    report('C08:velocity', 'joint velocity %d (link %d) does not '
+           'round-trip: %.9g -> %.9g (kinds=%s)' % (
+               c, dinfo[c][0], D[i, c], d2[i, c],
+               [l['kind'] for l in spec['links']]), Q[i], D[i])
+    return
   for k in known:
     res['violations'].append(dict(key=k, what='upstream limitation', case=dict(
         spec=spec, q=Q[0].tolist(), qd=D[0].tolist())))
